@@ -11,6 +11,8 @@ package core
 
 import (
 	"fmt"
+	"net"
+	"net/http"
 	"regexp"
 	"runtime"
 	"sort"
@@ -20,12 +22,15 @@ import (
 	"testing"
 	"time"
 
+	"github.com/bluenviron/gohlslib/v2"
 	"github.com/bluenviron/gortsplib/v5/pkg/description"
+	"github.com/bluenviron/gortsplib/v5/pkg/format"
 
 	"github.com/bluenviron/mediamtx/internal/conf"
 	"github.com/bluenviron/mediamtx/internal/defs"
 	"github.com/bluenviron/mediamtx/internal/externalcmd"
 	"github.com/bluenviron/mediamtx/internal/logger"
+	"github.com/bluenviron/mediamtx/internal/servers/hls"
 	"github.com/bluenviron/mediamtx/internal/test"
 	"github.com/bluenviron/mediamtx/internal/verifutil"
 )
@@ -237,7 +242,9 @@ func verifC40Sites(into map[string]bool) {
 
 var verifC40Hangs int
 
-// names of the internal/core functions goroutines are blocked in
+// verifC40Blocked: one entry per leftover goroutine that is inside internal/core or internal/servers/hls:
+// its innermost (at most three) frames of those packages, innermost first, joined by "<"
+// (e.g. pathManager.AddReader<hls.muxer.runInner<hls.muxer.run); entries sorted, unique.
 func verifC40Blocked() string {
 	buf := make([]byte, 4<<20)
 	n := runtime.Stack(buf, true)
@@ -246,9 +253,19 @@ func verifC40Blocked() string {
 		if strings.Contains(g, "verifC40Blocked") {
 			continue
 		}
+		var chain []string
 		for _, l := range strings.Split(g, "\n") {
-			if i := strings.Index(l, "mediamtx/internal/core."); i >= 0 && !strings.HasPrefix(l, "\t") {
-				f := l[i+len("mediamtx/internal/core."):]
+			if strings.HasPrefix(l, "\t") || strings.HasPrefix(l, "created by") || len(chain) == 3 {
+				continue
+			}
+			pfx, tag := "mediamtx/internal/core.", ""
+			i := strings.Index(l, pfx)
+			if i < 0 {
+				pfx, tag = "mediamtx/internal/servers/hls.", "hls."
+				i = strings.Index(l, pfx)
+			}
+			if i >= 0 {
+				f := l[i+len(pfx):]
 				if j := strings.LastIndex(f, "("); j >= 0 {
 					f = f[:j]
 				}
@@ -256,9 +273,11 @@ func verifC40Blocked() string {
 				if strings.HasPrefix(f, "verifC40") || strings.HasPrefix(f, "TestVerif") {
 					continue
 				}
-				set[f] = true
-				break
+				chain = append(chain, tag+f)
 			}
+		}
+		if len(chain) > 0 {
+			set[strings.Join(chain, "<")] = true
 		}
 	}
 	var l []string
@@ -274,12 +293,15 @@ func verifC40Blocked() string {
 
 func verifC40Exec(op string) string {
 	f := strings.Fields(op)
-	if f[0] != "stress" {
+	if f[0] != "stress" && f[0] != "hls" {
 		return "bad-op"
 	}
 	if verifC40Hangs >= 3 {
 		// the process already carries the leaked goroutines of three hung runs: stop searching
 		return "skipped"
+	}
+	if f[0] == "hls" {
+		return verifC40HLS(f)
 	}
 	seed := uint64(verifutil.AtoI64(f[1]))
 	workers, iters, mix, closeEarly := verifutil.Atoi(f[2]), verifutil.Atoi(f[3]), verifutil.Atoi(f[4]), f[5] == "1"
@@ -327,6 +349,10 @@ func verifC40Exec(op string) string {
 		pool.Close()
 		close(finished)
 	}()
+	return verifC40Watch(finished, &ops, watchdog)
+}
+
+func verifC40Watch(finished chan struct{}, ops *atomic.Int64, watchdog time.Duration) string {
 	sites := map[string]bool{}
 	tick := time.NewTicker(3 * time.Millisecond)
 	defer tick.Stop()
@@ -365,7 +391,159 @@ func verifC40Exec(op string) string {
 	}
 }
 
+// ---- HLS server + muxers on top of the real pathManager ----
+
+func verifC40FreePort() int {
+	ln, err := net.Listen("tcp", "127.0.0.1:0")
+	if err != nil {
+		panic(err)
+	}
+	defer ln.Close() //nolint:errcheck
+	return ln.Addr().(*net.TCPAddr).Port
+}
+
+// hls <seed> <alwaysRemux> <workers> <iters> <watchdog>: a real hls.Server wired to a real pathManager.
+// Paths become ready / not ready with an HLS-compatible (H264) or an incompatible (VP8-only) stream,
+// muxers are created automatically (alwaysRemux) or by HTTP clients, the API lists/gets muxers and
+// sessions, then the server is closed and the pathManager after it.
+func verifC40HLS(f []string) string {
+	seed := uint64(verifutil.AtoI64(f[1]))
+	always := f[2] == "1"
+	workers, iters := verifutil.Atoi(f[3]), verifutil.Atoi(f[4])
+	watchdog := time.Duration(verifutil.Atoi(f[5])) * time.Millisecond
+
+	pool := &externalcmd.Pool{}
+	pool.Initialize()
+	pm := &pathManager{
+		logLevel:          conf.LogLevel(logger.Error),
+		readTimeout:       conf.Duration(10 * time.Second),
+		writeTimeout:      conf.Duration(10 * time.Second),
+		writeQueueSize:    512,
+		udpMaxPayloadSize: 1452,
+		rtpMaxPayloadSize: 1440,
+		authManager:       test.NilAuthManager,
+		externalCmdPool:   pool,
+		pathConfs:         verifC40Confs(0),
+		parent:            test.NilLogger,
+	}
+	pm.initialize()
+	port := verifC40FreePort()
+	srv := &hls.Server{
+		Address:         fmt.Sprintf("127.0.0.1:%d", port),
+		AllowOrigins:    []string{"*"},
+		AlwaysRemux:     always,
+		Variant:         conf.HLSVariant(gohlslib.MuxerVariantLowLatency),
+		SegmentCount:    7,
+		SegmentDuration: conf.Duration(1 * time.Second),
+		PartDuration:    conf.Duration(200 * time.Millisecond),
+		SegmentMaxSize:  50 * 1024 * 1024,
+		ReadTimeout:     conf.Duration(10 * time.Second),
+		WriteTimeout:    conf.Duration(10 * time.Second),
+		MuxerCloseAfter: conf.Duration(60 * time.Second),
+		ExternalCmdPool: pool,
+		PathManager:     pm,
+		Parent:          test.NilLogger,
+	}
+	if err := srv.Initialize(); err != nil {
+		pm.close()
+		pool.Close()
+		return "done sites=-" // the port was taken in the meantime: nothing to observe
+	}
+	hc := &http.Client{Timeout: 1500 * time.Millisecond, Transport: &http.Transport{DisableKeepAlives: true}}
+
+	var wg sync.WaitGroup
+	var ops atomic.Int64
+	root := verifutil.NewRand(seed)
+	for w := 0; w < workers; w++ {
+		r := root.Fork()
+		wg.Add(1)
+		go func() {
+			defer wg.Done()
+			type held struct {
+				pa  defs.Path
+				pub *verifC40Pub
+			}
+			var mine []held
+			for i := 0; i < iters; i++ {
+				ops.Add(1)
+				name := verifC40Names[r.Intn(len(verifC40Names))]
+				switch k := r.Intn(100); {
+				case k < 30: // a path becomes ready: H264 (muxable) or VP8 only (no HLS-compatible track)
+					med := test.UniqueMediaH264()
+					if r.Chance(1, 2) {
+						med = &description.Media{Type: description.MediaTypeVideo, Formats: []format.Format{&format.VP8{PayloadTyp: 96}}}
+					}
+					pub := &verifC40Pub{wg: &wg}
+					res, err := pm.AddPublisher(defs.PathAddPublisherReq{
+						Author: pub, Desc: &description.Session{Medias: []*description.Media{med}},
+						AccessRequest: defs.PathAccessRequest{Name: name, Publish: true, SkipAuth: true},
+					})
+					if err == nil {
+						pub.mu.Lock()
+						pub.pa = res.Path
+						pub.mu.Unlock()
+						mine = append(mine, held{res.Path, pub})
+					}
+				case k < 50: // … and not ready again
+					if len(mine) > 0 {
+						j := r.Intn(len(mine))
+						h := mine[j]
+						mine = append(mine[:j], mine[j+1:]...)
+						h.pub.mu.Lock()
+						gone := h.pub.gone
+						h.pub.gone = true
+						h.pub.mu.Unlock()
+						if !gone {
+							h.pa.RemovePublisher(defs.PathRemovePublisherReq{Author: h.pub})
+						}
+					}
+				case k < 62:
+					srv.APIMuxersList() //nolint:errcheck
+				case k < 72:
+					srv.APIMuxersGet(name) //nolint:errcheck
+				case k < 80:
+					srv.APISessionsList() //nolint:errcheck
+				case k < 92: // a client asks for the playlist: client-requested muxer when not alwaysRemux
+					if res, err := hc.Get(fmt.Sprintf("http://127.0.0.1:%d/%s/index.m3u8", port, name)); err == nil {
+						res.Body.Close() //nolint:errcheck
+					}
+				default:
+					time.Sleep(time.Duration(r.Intn(3)) * time.Millisecond)
+				}
+			}
+			for _, h := range mine {
+				h.pub.mu.Lock()
+				gone := h.pub.gone
+				h.pub.gone = true
+				h.pub.mu.Unlock()
+				if !gone && r.Chance(1, 2) { // half of the streams are still up when the server is closed
+					h.pa.RemovePublisher(defs.PathRemovePublisherReq{Author: h.pub})
+				}
+			}
+		}()
+	}
+	finished := make(chan struct{})
+	go func() {
+		wg.Wait()
+		srv.APIMuxersList() //nolint:errcheck
+		srv.Close()
+		pm.close()
+		wg.Wait()
+		pool.Close()
+		close(finished)
+	}()
+	return verifC40Watch(finished, &ops, watchdog)
+}
+
 func verifC40Gen(r *verifutil.Rand, i int, thorough bool) []string {
+	if i%4 == 3 {
+		always := (i / 4) % 2 // alternately alwaysRemux on and off
+		it := 30 + r.Intn(50)
+		if thorough {
+			it = 60 + r.Intn(200)
+		}
+		return []string{fmt.Sprintf("hls %d %d %d %d %d", r.U64()>>1, 1-always, 2+r.Intn(4), it, 4000)}
+	}
 	workers := 2 + r.Intn(7)
 	iters := 40 + r.Intn(160)
 	if thorough {
@@ -385,6 +563,9 @@ func TestVerifC40(t *testing.T) {
 		Quick: 60, Thorough: 400,
 		Class: func(op, impl string) string {
 			f := strings.Fields(op)
+			if f[0] == "hls" {
+				return "hls/alwaysRemux" + f[2] + "/" + strings.Fields(impl)[0]
+			}
 			k := "reload" + f[4]
 			if f[5] == "1" {
 				k += "/close-early"
